@@ -50,6 +50,8 @@ def gen_cases(chk, n, per):
             opts["skipws"] = False
         if r.chance(0.1):
             opts["ws"] = r.choice([" ", " \t", "\n "])
+        if r.chance(0.15):
+            opts["use_regexp_group"] = True
         inputs = []
         for k in range(per):
             ri = r.split("i%d" % k)
@@ -194,6 +196,8 @@ def run(chk):
                     chk.stat("model level: outside the fragment of Model/Build.v")
                 else:
                     chk.stat("model level: originals built in Coq")
+                    if res.get("use_grp"):
+                        chk.stat("model level: ... of which with use_regexp_group")
                     if not B.outcomes_agree(mo0, run_["model01"]):
                         disagreements.append({"case": cinfo, "impl": run_["model01"], "model": mo0, "what": "Model/Build.v vs model_from_str"})
                     for vi, v in enumerate(run_["variants"][:2]):
